@@ -544,6 +544,31 @@ def run_files(ctx, case):
         prob_float = None
         if case["conflicts"] != "none":
             prob_float = 25.0 if case.get("defaults") else float(Fraction(case["prob"]))
+        # document line (raw, and as canonical JSON) -> (file, document number) where that is unique in the whole corpus
+        def unique_index(keyfn):
+            idx, dup = {}, set()
+            for f, ls in files.items():
+                step = 2 if any(d["fidx"] == f and d["meta"] for c in mc for d in c) else 1
+                for q, l in enumerate(ls[step - 1::step]):
+                    try:
+                        key = keyfn(l)
+                    except ValueError:
+                        continue
+                    if key in idx or key in dup:
+                        dup.add(key)
+                        idx.pop(key, None)
+                    else:
+                        idx[key] = (f, q)
+            # only files all of whose documents can be located
+            full = {f for f, ls in files.items()
+                    if sum(1 for v in idx.values() if v[0] == f) == len(ls) // (2 if any(d["fidx"] == f and d["meta"] for c in mc for d in c) else 1)}
+            return {k: v for k, v in idx.items() if v[0] in full}
+
+        line_pos = unique_index(lambda l: l)
+        json_pos = unique_index(lambda l: json.dumps(json.loads(l), sort_keys=True))
+        eligible = {v[0] for v in line_pos.values()} & {v[0] for v in json_pos.values()}
+        line_pos = {k: v for k, v in line_pos.items() if v[0] in eligible}
+        json_pos = {k: v for k, v in json_pos.items() if v[0] in eligible}
         all_pairs = []      # (action line or None, document line) over all workers — for the exactly-once oracle
         total_docs = sum(d["docs"] for c in mc for d in c)
         any_bulk = False
@@ -581,6 +606,7 @@ def run_files(ctx, case):
             if [c for c, _ in real_bulks] != [x[0] for x in mout]:
                 ctx.diff("who-gets-a-bulk", [x[0] for x in mout], [c for c, _ in real_bulks])
             seen = {}  # target index -> fresh ids emitted so far by this worker
+            order_of = {}  # file -> positions of its document lines in the order this worker emitted them
             for k, (c, p) in enumerate(real_bulks):
                 any_bulk = True
                 blines = split_body(p["body"])
@@ -604,7 +630,8 @@ def run_files(ctx, case):
                         aj = json.loads(a)
                     except ValueError:
                         aj = None
-                    if not (isinstance(aj, dict) and len(aj) == 1 and list(aj)[0] in ("index", "create", "update") and a.endswith(b"\n")):
+                    if not (isinstance(aj, dict) and len(aj) == 1 and list(aj)[0] in ("index", "create", "update")
+                            and isinstance(aj[list(aj)[0]], dict) and a.endswith(b"\n")):
                         ctx.fail("pairing", "line at an even position of the body is not an action-and-meta-data line", None, repr(a))
                         continue
                     act = list(aj)[0]
@@ -617,8 +644,14 @@ def run_files(ctx, case):
                             ctx.fail("pairing", "update action not followed by a {\"doc\": …} line", None, repr(dline))
                             continue
                         all_pairs.append((None, json.dumps(inner, sort_keys=True)))
+                        pos = json_pos.get(json.dumps(inner, sort_keys=True))
+                        if pos is not None:
+                            order_of.setdefault(pos[0], []).append(pos[1])
                     else:
                         all_pairs.append((a if "_id" in aj[act] and case["conflicts"] == "none" else None, dline))
+                        pos = line_pos.get(dline)
+                        if pos is not None:
+                            order_of.setdefault(pos[0], []).append(pos[1])
                     if case["conflicts"] != "none":
                         idv = aj[act].get("_id")
                         seen_ids = seen.setdefault(aj[act].get("_index"), [])
@@ -627,6 +660,10 @@ def run_files(ctx, case):
                             ctx.fail("conflict-id-not-seen", "an update refers to an id this worker has not emitted before", seen_ids[-5:], idv)
                         if not is_conflict:
                             seen_ids.append(idv)
+            # each group of co-located clients reads one contiguous slice of every file, in file order
+            for f, poss in order_of.items():
+                if not case.get("looped") and poss != list(range(poss[0], poss[0] + len(poss))):
+                    ctx.fail("slice-not-contiguous", "a worker's documents of one file are not a contiguous range in file order", None, {"file": f, "positions": poss[:12]})
             # per-worker stop count (ingest percentage)
             if not case.get("looped"):
                 corp_objs = [rc[i] for i in keep]
@@ -787,9 +824,20 @@ def run_reader(ctx, case):
                 if len(bl) != 2 * n:
                     ctx.fail("pairing", "generated bulk is not docs_in_bulk (action, document) pairs", 2 * n, len(bl))
                 for q in range(1, len(bl), 2):
-                    a = json.loads(bl[q - 1])
-                    if list(a)[0] == "update":
-                        got.append(("json", json.loads(bl[q]).get("doc")))
+                    try:
+                        a = json.loads(bl[q - 1])
+                        act = list(a)[0] if isinstance(a, dict) and len(a) == 1 else None
+                    except ValueError:
+                        act = None
+                    if act not in ("index", "create", "update"):
+                        ctx.fail("pairing", "line at an even position of the body is not an action-and-meta-data line", None, repr(bl[q - 1]))
+                        got.append(bl[q])
+                    elif act == "update":
+                        try:
+                            dj = json.loads(bl[q])
+                            got.append(("json", dj.get("doc") if isinstance(dj, dict) else None))
+                        except ValueError:
+                            got.append(bl[q])
                     else:
                         got.append(bl[q])
         same = len(got) == len(window) and all(
@@ -1025,9 +1073,9 @@ def run_malformed(ctx, case):
 
 
 STREAMS = [
-    Stream("arith", gen_arith, run_arith, quick=6000, thorough=400000, shards=8),
-    Stream("files", gen_files, run_files, quick=400, thorough=12000, shards=16),
-    Stream("reader", gen_reader, run_reader, quick=1200, thorough=60000, shards=8),
+    Stream("arith", gen_arith, run_arith, quick=8000, thorough=400000, shards=8),
+    Stream("files", gen_files, run_files, quick=640, thorough=12000, shards=16),
+    Stream("reader", gen_reader, run_reader, quick=1600, thorough=60000, shards=8),
     Stream("gen", gen_gen, run_gen, quick=3000, thorough=100000, shards=4),
     Stream("offsets", gen_offsets, run_offsets, quick=16, thorough=200, shards=8),
     Stream("malformed", gen_malformed, run_malformed, quick=40, thorough=400, shards=2),
